@@ -14,7 +14,7 @@ KEYS = {"seq-duplicate", "seq-gap", "seq-order", "close-not-last", "wire-undecod
 RULE = ("(a) MuxGen behaviours with multi-frame writes and closes replayed on a real Session pair, every record decoded at the wire; "
         "(b) gate scenarios: each ordered pair of {Write, ReadFrom, Close} with the first sender parked between encode and Seq++; "
         "(c) stress rounds (1-8 connections, 1-4 streams, 2-4 concurrent writers per stream mixing Write/ReadFrom/Close, optional "
-        "connection failure) whose wire trace is validated by TLC; (d) close sweep: thousands of open/write/close rounds (closed by either side, 0-2 writes) with the closing frame and its number checked on the wire; non-trivial = concurrent senders on one stream or a multi-frame write")
+        "connection failure) whose wire trace is validated by TLC; (d) close sweep: thousands of open/write/close rounds (closed by either side, 0-2 writes) with the closing frame and its number checked on the wire; (e) open race (StreamOpen.tla): 2-32 goroutines calling OpenStream at once, ids and (id, seq) pairs on the wire pairwise distinct; non-trivial = concurrent senders on one stream or a multi-frame write")
 
 
 def extra(ctx):
@@ -42,7 +42,17 @@ def extra(ctx):
     lf = lib.run_go(ctx, "multiplex", "TestVerifC13LateFrame", timeout=600, tag="late_frame")
     lib.collect_go(ctx, lf)
     ctx.log("late frames for closed streams: %d scenarios, %d violations" % (lf["evaluations"], len(lf.get("violations", []))))
-    return {"evaluations": g["evaluations"] + s["evaluations"] + cs["evaluations"] + lf["evaluations"], "close_sweep_closes": cs["stats"].get("closes", 0), "distinct_nontrivial": g["distinct_nontrivial"] + s["distinct_nontrivial"],
+    # stream-id allocation (spec/StreamOpen.tla): the code's fetch-and-add keeps NonceInv / DistinctIds, load-then-add breaks them
+    so = lib.require_ok(lib.run_tlc(ctx, "StreamOpen", "StreamOpen_mc.cfg", {"DEV": "", "INVS": "NonceInv DistinctIds"}, tag="streamopen", workers=2), "StreamOpen")
+    for inv in ("NonceInv", "DistinctIds"):
+        neg = lib.run_tlc(ctx, "StreamOpen", "StreamOpen_mc.cfg", {"DEV": '"LoadThenAdd"', "INVS": inv}, tag="streamopen_neg_" + inv, workers=2, expect_violation=True)
+        if neg.ok or neg.violated != inv:
+            raise lib.Inconclusive("StreamOpen with LoadThenAdd should violate %s (got %s)" % (inv, neg.violated))
+    orc = lib.run_go(ctx, "multiplex", "TestVerifC13OpenRace", timeout=900, tag="open_race")
+    lib.collect_go(ctx, orc)
+    ctx.log("open race: StreamOpen.tla %d states; %d rounds, %d streams opened by 2-32 goroutines at once, %d violations" % (
+        so.distinct, orc["stats"].get("open_race_rounds", 0), orc["stats"].get("streams_opened", 0), len(orc.get("violations", []))))
+    return {"evaluations": g["evaluations"] + s["evaluations"] + cs["evaluations"] + lf["evaluations"] + orc["evaluations"], "open_race_streams": orc["stats"].get("streams_opened", 0), "close_sweep_closes": cs["stats"].get("closes", 0), "distinct_nontrivial": g["distinct_nontrivial"] + s["distinct_nontrivial"],
             "samples": g["samples"][:1] + s["samples"][:1], "traces": s["evaluations"] if ok else 0,
             "wire_frames_validated": s["stats"].get("wire_frames", 0), "gate_rounds": g["stats"].get("gate_rounds", 0),
             "gate_second_sender_reached": g["stats"].get("second_sender_reached_gate", 0)}
